@@ -293,6 +293,8 @@ let run_case (toks : string list) : string =
                          (t_opt_list (a 5)) (t_opt_idx (a 6)) (scalar_draws draws)
        | "proofverify" -> w r_proofverify sh (t_bytes (a 1)) (t_bytes (a 2)) (t_opt_list (a 3)) (t_opt_idx (a 4))
                             (t_opt_bytes (a 5)) (t_opt_bytes (a 6))
+       | "proofverifyraw" -> w r_proofverify_raw sh (t_bytes (a 1)) (t_bytes (a 2)) (t_opt_list (a 3)) (t_opt_idx (a 4))
+                            (t_opt_bytes (a 5)) (t_opt_bytes (a 6))
        | "commit" -> w r_commit sh (t_opt_list (a 1)) (scalar_draws draws)
        | "dvc" -> w r_dvc sh (t_opt_bytes (a 1)) (nat_of_int (int_of_string (a 2)))
        | "blindsign" -> w r_blindsign sh (t_bytes (a 1)) (t_bytes (a 2)) (t_opt_bytes (a 3)) (t_opt_bytes (a 4)) (t_opt_list (a 5))
